@@ -108,6 +108,22 @@ def reg_alts(rng, tier, lo_ok, hi_special, maxid=30):
     return alts
 
 
+def hi_alts(rng, tier, lows, salt, wrap=None):
+    """Immediates of 2^32 and above (and negative 64-bit ones) whose LOW 32 bits are a value the slot takes: none of them
+    has an encoding, whatever a 32-bit view of the operand says. The high parts are drawn from a side stream (the main
+    stream - and with it every other variant name - is unchanged). `wrap` turns the number into the dimension's value."""
+    side = type(rng)(rng.s ^ (0x5A17E00000 + salt))
+    his = [(1 << 32, "hi32"), (1 << (33 + side.below(30)), "hibit"), (-(1 << 32), "neghi32"), (-(1 << 63), "msb")]
+    if tier != "thorough":
+        his = [his[0], his[1 + side.below(3)]]
+    out = []
+    for k, low in enumerate(lows):
+        for h, tag in his:
+            x = h + low
+            out.append(Alt(wrap(x) if wrap else x, "bad", "imm-hi32", "%s.%d" % (tag, k)))
+    return out
+
+
 class GpSlot(Slot):
     def __init__(self, opidx, data, rec):
         self.opidx = opidx
@@ -155,6 +171,26 @@ class GpSlot(Slot):
         out.text.append(n + "!" if (n and self.wb) else n)
         if self.field:
             out.fields.append((self.field, rid & 31 if rid in (SP, ZR) or rid < 31 else None, "reg"))
+
+
+class FixedGpSlot(Slot):
+    """X16 (chkfeat): the one register the instruction names"""
+
+    def __init__(self, opidx, data, rec):
+        self.opidx = opidx
+        self.width = 64 if data[0] == "X" else 32
+        self.rid = int(data[1:])
+        self.key = "op%d.id" % opidx
+
+    def dims(self, form, rng, tier):
+        alts = [Alt(self.rid - 1, "bad", "fixed-reg", "id-1"), Alt(self.rid + 1, "bad", "fixed-reg", "id+1"), Alt(0, "bad", "fixed-reg", "id0"),
+                Alt(ZR, "bad", "fixed-reg", "zr"), Alt(SP, "bad", "fixed-reg", "sp"), Alt(self.rid + 32, "bad", "reg-id", "id+32")]
+        return [Dim(self.key, self.rid, alts, self.opidx), Dim(self.key + ".wswap", 0, [Alt(1, "bad", "reg-width", "otherwidth", True)], self.opidx)]
+
+    def render(self, form, v, out):
+        w = self.width if not v.get(self.key + ".wswap") else 96 - self.width
+        out.tokens.append("G:%s:%d" % ("w" if w == 32 else "x", v[self.key]))
+        out.text.append(T.gp_name(w, v[self.key]))
 
 
 class GpListSlot(Slot):
@@ -262,7 +298,7 @@ class VecSlot(Slot):
             # against LLVM's bytes like any accepted case)
             self.slkey = "op%d.sl" % self.opidx
             d.append(Dim(self.slkey, self.letter, [Alt(L, "bad", "scalar-view", "as-" + L.lower()) for L in "BHSDQ" if L != self.letter], self.opidx))
-        if self.letter == "V" and self.arr is not None and self.idx is None:
+        if self.letter == "V" and self.arr is not None and self.idx is None and not any(isinstance(x, ModImmSlot) for x in form.slots):
             # one operand written with another arrangement than its partners (sqxtn v1.8b, v2.2d; add v0.16b, v1.8b,
             # v2.8b): unencodable unless LLVM assembles the text (then the case is judged against LLVM's bytes)
             self.axkey = "op%d.ax" % self.opidx
@@ -414,7 +450,9 @@ class PlainImm(ImmSlot):
             alts.append(Alt(s + 1, "bad", "imm-align", "misaligned"))
         if tier == "thorough" and b <= 7:
             alts += [Alt(i * s, tag="v%d" % i) for i in range(2, (1 << b) - 1)] if not self.signed else []
-        return [Dim(self.key, s * (3 if b > 2 else 1), alts, self.opidx)]
+        base = s * (3 if b > 2 else 1)
+        alts += hi_alts(rng, tier, [base, 0] + ([0x1000, 0xFFF000] if self.addsub else []), self.opidx)
+        return [Dim(self.key, base, alts, self.opidx)]
 
     def render(self, form, v, out):
         x = v[self.key]
@@ -431,7 +469,7 @@ class PStateImm(ImmSlot):
     """msr <pstatefield>, #imm : which values exist depends on the field; only 0/1 exist for every field"""
 
     def dims(self, form, rng, tier):
-        return [Dim(self.key, 1, [Alt(0), Alt(16, "bad", "imm-range", "16")], self.opidx)]
+        return [Dim(self.key, 1, [Alt(0), Alt(16, "bad", "imm-range", "16")] + hi_alts(rng, tier, [1], self.opidx), self.opidx)]
 
     def render(self, form, v, out):
         out.tokens.append("I:%d" % v[self.key])
@@ -448,7 +486,7 @@ class LiteralImm(ImmSlot):
         self.fp_zero = fp_zero
 
     def dims(self, form, rng, tier):
-        return [Dim(self.key, self.value, [Alt(self.value + 1, "bad", "imm-literal", "lit+1")], self.opidx)]
+        return [Dim(self.key, self.value, [Alt(self.value + 1, "bad", "imm-literal", "lit+1")] + hi_alts(rng, tier, [self.value], self.opidx), self.opidx)]
 
     def render(self, form, v, out):
         x = v[self.key]
@@ -464,13 +502,15 @@ class CondImm(ImmSlot):
         alts.append(Alt(1, "bad" if inv else "unk", "cond-nv", "nv"))
         alts.append(Alt(16, "bad", "cond-range", "cc16"))
         alts.append(Alt(17, "bad", "cond-range", "cc17"))
-        return [Dim(self.key, rng.range(2, 15), alts, self.opidx)]
+        base = rng.range(2, 15)
+        alts += hi_alts(rng, tier, [base], self.opidx)
+        return [Dim(self.key, base, alts, self.opidx)]
 
     def render(self, form, v, out):
         c = v[self.key]
         out.tokens.append("I:%d" % c)
         out.text.append(T.COND_NAMES.get(c))
-        if c < 16 and "cond" in self.rec["fields"]:
+        if 0 <= c < 16 and "cond" in self.rec["fields"]:
             e = T.cond_enc(c)
             out.fields.append(("cond", e ^ 1 if self.rec["name"] in INV_COND_NAMES else e, "imm"))
 
@@ -632,7 +672,11 @@ class LogicalImm(ImmSlot):
         x = v[self.key]
         out.tokens.append("U:%d" % x)
         out.text.append("#0x%x" % x)
-        out.fields.append(("@logical", (x, self.width), "imm"))
+        if self.rec.get("negated_logical"):
+            # bic / bics / orn / eon Rd, Rn, #imm: the complement is what AND / ANDS / ORR / EOR (immediate) must hold
+            out.fields.append(("@logical", (~x & ((1 << self.width) - 1), self.width), "imm"))
+        else:
+            out.fields.append(("@logical", (x, self.width), "imm"))
         if self.rec["name"] == "mov":
             out.fields.append(("@movseq", (x, self.width, False), "imm"))
 
@@ -650,6 +694,7 @@ class WideImm(ImmSlot):
         if not self.alias:
             alts = [Alt(0), Alt(1), Alt(0xFFFF, tag="max"), Alt(0x10000, "bad", "imm-range", "max+1"),
                     Alt(rng.range(2, 0xFFFE), tag="mid"), Alt(-1, "bad", "imm-range", "neg")]
+            alts += hi_alts(rng, tier, [0x1234, 0], self.opidx)
             return [Dim(self.key, 0x1234, alts, self.opidx)]
         alts = []
         for hw in range(w // 16):
@@ -698,12 +743,15 @@ class BitfieldImm(ImmSlot):
         r = self.role
         if r in ("immr", "imms", "n"):
             alts = [Alt(0), Alt(1), Alt(w - 1, tag="max"), Alt(w, "bad", "imm-range", "max+1"), Alt(rng.range(2, w - 2), tag="mid")]
+            alts += hi_alts(rng, tier, [5], self.opidx)
             return [Dim(self.key, 5, alts, self.opidx)]
         if r == "lsb":
             alts = [Alt(0), Alt(1), Alt(w - 1, tag="max"), Alt(w, "bad", "imm-range", "max+1")]
+            alts += hi_alts(rng, tier, [3], self.opidx)
             return [Dim(self.key, 3, alts, self.opidx)]
         # width: base lsb is 3 (see above); when lsb is swept the width stays 1
         alts = [Alt(2), Alt(w - 3, tag="max"), Alt(w - 2, "bad", "imm-range", "max+1"), Alt(0, "bad", "imm-range", "zero")]
+        alts += hi_alts(rng, tier, [1], self.opidx)
         return [Dim(self.key, 1, alts, self.opidx)]
 
     def render(self, form, v, out):
@@ -747,14 +795,13 @@ class VecShiftImm(ImmSlot):
             base = "2"
         if tier == "thorough":
             alts.append(Alt("e/2", tag="half"))
+        alts += hi_alts(rng, tier, [1], self.opidx, wrap=lambda x: "=%d" % x)
         return [Dim(self.key, base, alts, self.opidx)]
 
     def render(self, form, v, out):
         e = form.min_esize(v)
         sym = v[self.key]
-        x = {"0": 0, "1": 1, "2": 2, "e-1": e - 1, "e": e, "e+1": e + 1, "e/2": e // 2}[sym]
-        if x > 63 and sym in ("e", "e+1") and self.left:
-            pass
+        x = int(sym[1:]) if sym.startswith("=") else {"0": 0, "1": 1, "2": 2, "e-1": e - 1, "e": e, "e+1": e + 1, "e/2": e // 2}[sym]
         out.tokens.append("I:%d" % x)
         out.text.append("#%d" % x)
         if "immh" in self.rec["fields"] and "immb" in self.rec["fields"]:
@@ -774,6 +821,7 @@ class FbitsScaleImm(ImmSlot):
     def dims(self, form, rng, tier):
         w = self.width
         alts = [Alt(1), Alt(2), Alt(w, tag="max"), Alt(0, "bad", "imm-range", "zero"), Alt(w + 1, "bad", "imm-range", "max+1"), Alt(65, "bad", "imm-range", "65")]
+        alts += hi_alts(rng, tier, [7, w], self.opidx)
         return [Dim(self.key, 7, alts, self.opidx)]
 
     def render(self, form, v, out):
@@ -792,6 +840,7 @@ class RotateImm(ImmSlot):
     def dims(self, form, rng, tier):
         ok = [0, 90, 180, 270] if self.full else [90, 270]
         alts = [Alt(x) for x in ok] + [Alt(x, "bad", "rotate", "rot%d" % x) for x in ([45, 360, 1] if self.full else [0, 180, 45, 360])]
+        alts += hi_alts(rng, tier, [90], self.opidx)
         return [Dim(self.key, 90, alts, self.opidx)]
 
     def render(self, form, v, out):
@@ -818,13 +867,16 @@ class NamedImm(ImmSlot):
         if not ents:
             raise Unsupported("no names for " + self.ns)
         limit = len(ents) if tier == "thorough" else 48
+        base = ents[0]
         if len(ents) > limit:
-            pick = []
+            # (the quick tier used to take 48 names: the draw stays, for the base value and the main stream, but every
+            # name is a case in every tier - a wrong op2 / CRm in one constant must not depend on the seed to be seen)
             r = rng.fork("names" + self.ns)
             idx = list(range(len(ents)))
             r.shuffle(idx)
-            ents = [ents[i] for i in sorted(idx[:limit])]
+            base = ents[sorted(idx[:limit])[0]]
         alts = [Alt((n, val), "unk", "", n.lower()) for n, val in ents]
+        alts += hi_alts(rng, tier, [base[1]], self.opidx, wrap=lambda x: (None, x))
         if self.op["data"].startswith("{"):
             alts.append(Alt(("", None), "ok", "", "omitted"))
         if self.raw_bits:
@@ -839,7 +891,7 @@ class NamedImm(ImmSlot):
             elif self.ns == "PRFOp":
                 for val in (6, 7, 0x18, 0x1F):
                     alts.append(Alt(("#%d" % val, val), "ok", "", "raw%d" % val))
-        return [Dim(self.key, ents[0], alts, self.opidx)]
+        return [Dim(self.key, base, alts, self.opidx)]
 
     def render(self, form, v, out):
         n, val = v[self.key]
@@ -854,6 +906,178 @@ class NamedImm(ImmSlot):
             out.fields.append(("@alttext", (n.lower(), T.sysreg_generic_name(val)), "imm"))
         if self.ns == "SysReg" and "sysreg" in self.rec["fields"] and val <= 0xFFFF:
             out.fields.append(("sysreg", val & 0x7FFF, "imm"))
+
+
+# -- AdvSIMD modified immediates ------------------------------------------------------------------------------------
+
+M64 = (1 << 64) - 1
+MODIMM_SHIFTS = {8: [0], 16: [0, 8], 32: [0, 8, 16, 24]}
+
+
+def modimm_expect(kind, esize, imm, shift):
+    """What `movi|mvni|orr|bic Vd.<T>, #imm {, lsl|msl #n}` asks for, judged by this module's own AdvSIMDExpandImm tables.
+    -> (status, what, lane value or None, text operands or None).
+    Two operand calls give the element value itself (AsmJit finds imm8 and the shift, and may pick a smaller element size
+    for replicated patterns): they are encodable iff SOME movi / mvni encoding writes that lane value (orr / bic: iff the
+    element is imm8 << 8k). With an explicit shift the operands are those of the Arm syntax."""
+    movish = kind in ("movi", "mvni")
+    if imm < 0 or imm >> 64:
+        return "bad", "imm-hi32", None, None
+    text = None
+    explicit = shift is not None
+    if explicit and esize == 64:
+        if shift != ("lsl", 0):
+            return "bad", "modimm-shift", None, None
+        explicit = False     # (AsmJit documents that it takes a zero amount here)
+        zero_shift_on_d = True
+    else:
+        zero_shift_on_d = False
+    if explicit:
+        sop, amt = shift
+        if sop == "lsl":
+            if amt not in MODIMM_SHIFTS[esize]:
+                return "bad", "modimm-shift", None, None
+            if imm > 0xFF:
+                return "bad", "imm-hi32" if imm >> 32 else "imm-range", None, None
+            elem = imm << amt
+            text = "#0x%x" % imm + (", lsl #%d" % amt if amt or esize > 8 else "")
+        elif sop == "msl":
+            if not movish or esize != 32 or amt not in (8, 16):
+                return "bad", "modimm-shift", None, None
+            if imm > 0xFF:
+                return "bad", "imm-hi32" if imm >> 32 else "imm-range", None, None
+            elem = (imm << amt) | ((1 << amt) - 1)
+            text = "#0x%x, msl #%d" % (imm, amt)
+        else:
+            return "bad", "shift-kind", None, None
+    else:
+        if imm >> esize:
+            return "bad", "imm-hi32" if imm >> 32 else "imm-range", None, None
+        elem = imm
+    value = T.replicate(elem, esize)
+    if kind == "mvni":
+        value ^= M64
+    if movish:
+        encodable = value in T.modimm_movable()
+    else:
+        encodable = any((elem >> a) << a == elem and (elem >> a) <= 0xFF for a in MODIMM_SHIFTS[esize])
+    if not encodable:
+        return "bad", "modimm", None, None
+    pseudo = kind == "mvni" and esize in (8, 64)       # AsmJit's own reading (movi of the complement): no Arm syntax
+    if not explicit and not pseudo and not zero_shift_on_d:
+        if esize == 64:
+            if all(((elem >> (8 * i)) & 0xFF) in (0, 0xFF) for i in range(8)):
+                text = "#0x%016x" % elem
+        else:
+            for a in MODIMM_SHIFTS[esize]:
+                if (elem >> a) << a == elem and (elem >> a) <= 0xFF:
+                    text = "#0x%x" % (elem >> a) + (", lsl #%d" % a if a else "")
+                    break
+    if pseudo:
+        text = None
+    return ("unk" if (pseudo or zero_shift_on_d) else "ok"), "", value, text
+
+
+class ModImmSlot(Slot):
+    """#imm {, lsl #n} of movi / mvni / orr / bic (vector, immediate): one slot for both operands. The interesting values
+    depend on the element size, so the slot enumerates the product arrangement x value itself (product_cases)."""
+    nops = 2
+
+    def __init__(self, opidx, rec):
+        self.opidx = opidx
+        self.rec = rec
+        self.kind = rec["name"]
+        self.key = "op%d.modimm" % opidx
+        self.mid = 0x5A
+        self.mask = 0xFF00FF0000FFFF00
+
+    def dims(self, form, rng, tier):
+        side = type(rng)(rng.s ^ 0x30D1337)
+        self.mid = 2 + side.below(0xFD)
+        self.mask = 0
+        for i in range(8):
+            if side.below(2):
+                self.mask |= 0xFF << (8 * i)
+        if self.mask in (0, M64):
+            self.mask = 0xFF00FF0000FFFF00
+        self.tier = tier
+        self.his = [a.value for a in hi_alts(rng, tier, [self.mid], self.opidx)]
+        return [Dim(self.key, ("base", None, None), [], self.opidx)]
+
+    def esize(self, form, v):
+        if "arr" in v:
+            return ARR[form.arr_of("t", v)][2]
+        return 64
+
+    def specs(self, esize):
+        m = self.mid
+        out = [("imm8.0", 0, None), ("imm8.1", 1, None), ("imm8.ff", 0xFF, None), ("imm8.mid", m, None)]
+        if esize < 64:
+            for a in MODIMM_SHIFTS[esize]:
+                out.append(("mid.lsl%d" % a, m, ("lsl", a)))
+                out.append(("ff.lsl%d" % a, 0xFF, ("lsl", a)))
+            mx = MODIMM_SHIFTS[esize][-1]
+            out += [("mid.lsl4", m, ("lsl", 4)), ("mid.lsl%d" % (mx + 8), m, ("lsl", mx + 8)), ("mid.lsl%d" % (mx + 1), m, ("lsl", mx + 1)),
+                    ("mid.lsl32", m, ("lsl", 32)), ("mid.lsr8", m, ("lsr", 8)), ("mid.msl8", m, ("msl", 8)), ("ff.msl16", 0xFF, ("msl", 16)),
+                    ("mid.msl0", m, ("msl", 0)), ("mid.msl24", m, ("msl", 24)), ("x100.lsl0", 0x100, ("lsl", 0)), ("x100", 0x100, None),
+                    ("x1fe", 0x1FE, None), ("hi.lsl0", self.his[0], ("lsl", 0))]
+            for k, h in enumerate(self.his):
+                out.append(("hi%d" % k, h, None))
+        if esize == 16:
+            out += [("pre8", m << 8, None), ("ff00", 0xFF00, None), ("rep8", m * 0x0101, None), ("x1fe0", 0x1FE0, None), ("xabcd", 0xABCD, None),
+                    ("x10000", 0x10000, None), ("pre8.lsl0", m << 8, ("lsl", 0))]
+        if esize == 32:
+            out += [("pre8", m << 8, None), ("pre16", m << 16, None), ("pre24", m << 24, None), ("ff000000", 0xFF000000, None),
+                    ("x1fe00", 0x1FE00, None), ("rep16", m * 0x00010001, None), ("rep16.pre8", (m << 8) * 0x00010001, None),
+                    ("rep8", m * 0x01010101, None), ("mslpattern8", (m << 8) | 0xFF, None), ("mslpattern16", (m << 16) | 0xFFFF, None),
+                    ("x12345", 0x12345, None), ("x100000000", 1 << 32, None), ("pre16.lsl8", m << 16, ("lsl", 8))]
+        if esize == 64:
+            k = self.mask
+            out = [("mask.0", 0, None), ("mask.ones", M64, None), ("mask.ff", 0xFF, None), ("mask.top", 0xFF << 56, None), ("mask.rnd", k, None),
+                   ("mask.alt", 0x00FF00FF00FF00FF, None), ("mask.rnd^1", k ^ 1, None), ("mask.rnd^bit62", k ^ (1 << 62), None), ("x7f", 0x7F, None),
+                   ("rep32.imm8", m * 0x0000000100000001, None), ("rep32.pre16", (m << 16) * 0x0000000100000001, None),
+                   ("rep16.imm8", m * 0x0001000100010001, None), ("rep8", m * 0x0101010101010101, None), ("rep32.x12345", 0x12345 * 0x0000000100000001, None),
+                   ("mask.rnd.lsl0", k, ("lsl", 0)), ("mask.rnd.lsl8", k, ("lsl", 8)), ("mask.rnd.msl8", k, ("msl", 8)), ("mask.rnd.lsl64", k, ("lsl", 64))]
+        if self.tier == "thorough" and esize < 64:
+            out += [("imm8.%x" % i, i, None) for i in range(2, 255) if i != m]
+            for a in MODIMM_SHIFTS[esize]:
+                out += [("%x.lsl%d" % (i, a), i, ("lsl", a)) for i in (1, 0x80, 0x7F, 0xAA, 0x55)]
+        seen, uniq = set(), []
+        for x in out:
+            if x[0] not in seen:
+                seen.add(x[0])
+                uniq.append(x)
+        return uniq
+
+    def product_cases(self, form):
+        arrd = next((d for d in form.dims if d.key == "arr"), None)
+        arrs = arrd.alts if arrd else [None]
+        for a in arrs:
+            v0 = dict(form.base)
+            if a is not None:
+                v0["arr"] = a.value
+            es = self.esize(form, v0)
+            for tag, imm, shift in self.specs(es):
+                v = dict(v0)
+                v[self.key] = (tag, imm, shift)
+                st, what, _, _ = modimm_expect(self.kind, es, imm, shift)
+                yield ("%s=%s:%s" % (self.key, a.tag if a is not None else "d", tag), v, st, what, self.opidx, False)
+
+    def render(self, form, v, out):
+        tag, imm, shift = v[self.key]
+        es = self.esize(form, v)
+        if tag == "base":
+            imm = self.mask if es == 64 else self.mid
+        st, what, value, text = modimm_expect(self.kind, es, imm, shift)
+        if st == "bad" and not (self.kind == "mvni" and es in (8, 64)):
+            # the request as written, so that LLVM can refute a wrong marking
+            text = ("#0x%x" % imm if imm >= 0 else "#%d" % imm) + (", %s #%d" % shift if shift is not None else "")
+        out.tokens.append("U:%d" % imm if imm >= 0 else "I:%d" % imm)
+        if shift is not None:
+            out.tokens.append("S:%s:%d" % shift)
+        out.text.append(text)
+        if value is not None:
+            out.fields.append(("@modimm", (self.kind, value), "imm"))
 
 
 # -- memory --------------------------------------------------------------------------------------------------------
@@ -1108,6 +1332,7 @@ class Form:
         self.cc_in_name = False
         self.text_name = rec["name"]
         self.mov_imm = rec["name"] == "mov" and any(o["type"] == "imm" for o in rec["operands"])
+        self.side_stream = bool(rec.get("_supplement"))
         self._parse()
 
     # arrangement handling --------------------------------------------------------------------------------------
@@ -1195,6 +1420,8 @@ class Form:
                     i += n - 1
                 elif d in ("", "+"):
                     raise Unsupported("stray artificial operand")
+                elif re.match(r"^[WX]\d+$", d):
+                    slot = FixedGpSlot(opidx, d, rec)
                 elif d[0] in "WXR":
                     slot = GpSlot(opidx, d, rec)
                 elif d[0] in "BHSDQV":
@@ -1207,6 +1434,10 @@ class Form:
                 slot = MemSlot(opidx, o, rec)
             elif o["type"] == "imm":
                 slot = self._imm_slot(opidx, o, rec, w_of_first, imm_call)
+                if isinstance(slot, ModImmSlot):
+                    self.side_stream = True      # (these records used to be skipped: they must not draw from the main stream)
+                    if i + 1 < len(ops) and ops[i + 1]["data"] == "{lsl #n}":
+                        i += 1
             else:
                 raise Unsupported("operand type " + o["type"])
             self.slots.append(slot)
@@ -1240,14 +1471,16 @@ class Form:
             return ShiftImm(opidx, o, rec, "sop")
         if d == "{extend #n}":
             return ShiftImm(opidx, o, rec, "ext")
+        if imm_call in ("ASimdMovPImm", "ASimdMovNImm", "ASimdLogicalImm") and d == "#imm":
+            return ModImmSlot(opidx, rec)
         if d == "{lsl #n}":
             if imm_call in ("ImmWide", "ImmWideInv"):
                 return ShiftImm(opidx, o, rec, "movw")
             if "n" in f and f["n"]["bits"] == 3:
                 return ShiftImm(opidx, o, rec, "lsl3")
             raise Unsupported("vector modified immediate (movi/mvni/orr/bic #imm, lsl #n)")
-        if imm_call in ("ASimdMovPImm", "ASimdMovNImm", "ASimdLogicalImm"):
-            raise Unsupported("vector modified immediate (movi/mvni/orr/bic #imm)")
+        if imm_call in ("ASimdMovPImm", "ASimdMovNImm", "ASimdLogicalImm") and d == "#imm":
+            return ModImmSlot(opidx, rec)
         if imm_call in ("LogicalImm", "ImmLogical") and d in ("#imm", "#log_imm"):
             return LogicalImm(opidx, o, rec, w)
         if imm_call in ("ImmWide", "ImmWideInv") and d == "#imm":
@@ -1352,6 +1585,24 @@ class Form:
                 v = dict(self.base)
                 v[d.key] = a.value
                 yield ("%s=%s" % (d.key, a.tag), v, a.status, a.what, d.opidx, a.notemplate)
+        # products of two dimensions: the limits of a shift / #fbits immediate are symbolic in the element size, so they
+        # are tried at EVERY arrangement of the record (the sweep above meets them at the base arrangement only); the
+        # modified-immediate slot enumerates arrangement x value itself
+        arrd = next((d for d in self.dims if d.key == "arr"), None)
+        for s in self.slots:
+            if isinstance(s, VecShiftImm) and arrd is not None:
+                sd = next(d for d in self.dims if d.key == s.key)
+                for a in arrd.alts:
+                    if a.value == arrd.base:
+                        continue
+                    for b in sd.alts:
+                        v = dict(self.base)
+                        v["arr"] = a.value
+                        v[sd.key] = b.value
+                        yield ("arr=%s*%s=%s" % (a.tag, sd.key, b.tag), v, b.status, b.what, sd.opidx, False)
+            if isinstance(s, ModImmSlot):
+                for c in s.product_cases(self):
+                    yield c
 
     def random_cases(self, rng, n):
         """all dimensions at once, valid values only"""
@@ -1394,6 +1645,7 @@ class Form:
         if bf:
             fields = [x for x in fields if not (isinstance(x[0], str) and x[0].startswith("@bf."))]
             fields += bitfield_fields(self.rec, bf)
+        self.last_parts = (list(tokens), list(texts))
         line = "%s %d %s" % (name, len(tokens), " ".join(tokens))
         text = None
         if all(t is not None for t in texts):
@@ -1447,17 +1699,168 @@ def build_forms(recs):
     return forms, unsupported
 
 
-def generate(recs, seed, tier, known_names=None, nrandom=24):
-    """-> (cases, stats). A case is a dict: rec, vclass, status, what, opidx, line, text, fields."""
+SHAPE_WHATS = ("foreign-shape", "extra-operand", "wrong-id-kind", "inst-id-range", "mem-base-w", "mem-absolute", "mem-index-and-offset",
+               "mem-label-index", "element-index-unexpected")
+
+
+def coarse_sig(tokens):
+    """operand KINDS of a driver line: G gp register, Vs scalar vector register, Vv vector with an element type, Ve vector
+    element, I immediate, S shift / extend immediate, M memory, Ml literal / absolute memory, R label or address"""
+    out = []
+    for t in tokens:
+        p = t.split(":")
+        k = p[0]
+        if k == "G":
+            out.append("G")
+        elif k == "V":
+            out.append("Ve" if (len(p) >= 5 and p[4] != "-") else ("Vv" if len(p) >= 4 and p[3] != "-" else "Vs"))
+        elif k in ("I", "U", "F"):
+            out.append("I")
+        elif k == "S":
+            out.append("S")
+        elif k in ("M", "MX"):
+            out.append("M")
+        elif k in ("ML", "MA", "MLX"):
+            out.append("Ml")
+        else:
+            out.append("R")
+    return tuple(out)
+
+
+def shape_cases(built, sigs_of_name, first_rec, shape_info, rng, tier):
+    """Shape-level negatives. The sweeps above keep the operand KINDS of a record and perturb values; here the kinds
+    themselves are wrong:
+      foreign-shape   a mnemonic gets the operands of a sibling form of its own encoding class (cmhi v, v, #0; shl v, v, v;
+                      fcvtas .., #fbits; asrv x, x, #n; ldrb w, [label]) - guarded in AsmJit only by per-row table flags
+      wrong-id-kind   the general purpose id of a name with vector operands and the other way round
+      inst-id-range   ids beyond the table
+      extra-operand   one more register after the last operand
+      mem-*           W register as base, absolute address where no literal form exists, index AND offset, label + index
+      element-index-unexpected   a lane index on the vector operand of a non-indexed form
+    A case is generated only when NO record of the mnemonic has these operand kinds; where a text exists LLVM can still
+    refute the marking. Picks come from a side stream."""
+    ids, count = shape_info["ids"], shape_info["count"]
+    side = type(rng)(rng.s ^ 0x5AA9E5AA9E)
+    out = []
+
+    def views_folded(sg):
+        # a register written without its element type (bif d1, d2, d3) is the scalar- / arrangement-view dimension, not a
+        # different operand kind
+        return tuple("V" if x in ("Vs", "Vv") else x for x in sg)
+    folded_of_name = {n: set(views_folded(x) for x in sgs) for n, sgs in sigs_of_name.items()}
+
+    def enc_of(name, tokens):
+        lst = ids.get(name)
+        if not lst:
+            return None
+        has_vec = any(t.startswith("V:") for t in tokens)
+        return (lst[-1] if has_vec else lst[0])[1]
+
+    def mk(name, tokens, texts, what, vclass, opidx=-1, inst=None):
+        text = None
+        if inst is None and texts is not None and all(t is not None for t in texts):
+            text = name + (" " + ", ".join(texts) if texts else "")
+        line = ("%s %d %s" % (inst or name, len(tokens), " ".join(tokens))).rstrip()
+        out.append({"rec": first_rec[name], "vclass": vclass, "status": "bad", "what": what, "opidx": opidx, "alt_text": None,
+                    "line": line, "text": text, "fields": [], "notemplate": True})
+
+    # donors per encoding class: one base line per (class, operand kinds)
+    donors = {}
+    for fm, tokens, texts in built:
+        if fm.cc_in_name:
+            continue
+        e = enc_of(fm.asm_name, tokens)
+        if e is None:
+            continue
+        donors.setdefault(e, {}).setdefault(coarse_sig(tokens), (fm, tokens, texts))
+    names_of_enc = {}
+    for name, lst in ids.items():
+        if name in first_rec:
+            for _, e in lst:
+                names_of_enc.setdefault(e, set()).add(name)
+    for e in sorted(donors):
+        for sg in sorted(donors[e]):
+            fm, tokens, texts = donors[e][sg]
+            for name in sorted(names_of_enc.get(e, ())):
+                if name == fm.asm_name or views_folded(sg) in folded_of_name.get(name, ()) or enc_of(name, tokens) != e:
+                    continue
+                mk(name, tokens, texts, "foreign-shape", "shape=%s:%s" % (fm.asm_name, "".join(sg)))
+
+    seen_name = set()
+    for fm, tokens, texts in built:
+        name = fm.asm_name
+        if fm.cc_in_name:
+            continue
+        sigs = sigs_of_name.get(name, ())
+        tag = "rec%d" % fm.rec["_idx"]
+        # one more operand (a64::Assembler dispatches on the kinds of the first four operands; what it does with a fifth or
+        # sixth one that no form has is its own business)
+        if len(tokens) < 4:
+            extra = "V:q:3:b" if (tokens and tokens[-1].startswith("V:") and side.below(2)) else "G:x:3"
+            if coarse_sig(tokens + [extra]) not in sigs:
+                mk(name, tokens + [extra], None, "extra-operand", "shape=extra:" + tag, len(tokens))
+        # the sibling id of the same mnemonic, and ids beyond the table
+        lst = ids.get(name, [])
+        if len(lst) > 1:
+            has_vec = any(t.startswith("V:") for t in tokens)
+            other = lst[0][0] if has_vec else lst[-1][0]
+            mk(name, tokens, None, "wrong-id-kind", "shape=otherid:" + tag, inst="#%d" % other)
+        if name not in seen_name:
+            seen_name.add(name)
+            picks = (count, count + 1 + side.below(4000), 0xFFFF, 0x0FFFFFFF)
+            for bad_id in (picks if len(seen_name) <= 8 else (picks[side.below(4)],)):
+                mk(name, tokens, None, "inst-id-range", "shape=id%d:%s" % (bad_id if bad_id in (count, 0xFFFF, 0x0FFFFFFF) else -1, tag), inst="#%d" % bad_id)
+        # memory operand shapes
+        for i, t in enumerate(tokens):
+            p = t.split(":")
+            if p[0] == "M" and len(p) == 4:
+                tx = [(x.replace("[x", "[w", 1).replace("[sp", "[wsp", 1) if (x is not None and x.startswith("[")) else x) for x in texts]
+                mk(name, tokens[:i] + [t + ":w"] + tokens[i + 1:], tx, "mem-base-w", "shape=wbase:" + tag, i)
+                if p[2] == "o":
+                    mk(name, tokens[:i] + ["MX:%s:x:%d:-:0:o:%s" % (p[1], 1 + side.below(29), p[3] if p[3] != "0" else "8")] + tokens[i + 1:], None,
+                       "mem-index-and-offset", "shape=idxoff:" + tag, i)
+                if "Ml" not in "".join("".join(x) for x in sigs):
+                    mk(name, tokens[:i] + ["MA:64"] + tokens[i + 1:], None, "mem-absolute", "shape=abs:" + tag, i)
+            elif p[0] == "MX" and len(p) == 7 and p[6] == "o":
+                mk(name, tokens[:i] + [t + ":8"] + tokens[i + 1:], None, "mem-index-and-offset", "shape=idxoff:" + tag, i)
+            elif p[0] == "ML":
+                mk(name, tokens[:i] + ["MLX:%s:%d" % (p[1], 1 + side.below(29))] + tokens[i + 1:], None, "mem-label-index", "shape=labelidx:" + tag, i)
+        # a lane index where the form has none
+        vv = [i for i, t in enumerate(tokens) if coarse_sig([t]) == ("Vv",) and t.split(":")[1] == "q"]
+        if vv:
+            i = vv[side.below(len(vv))]
+            mt = tokens[:i] + [tokens[i] + ":1"] + tokens[i + 1:]
+            if coarse_sig(mt) not in sigs:
+                pre = "v%s." % tokens[i].split(":")[2]
+                tx, hit = [], False
+                for x in texts:
+                    if x is not None and x.startswith(pre) and "[" not in x and not hit:
+                        hit = True
+                        x = pre + x[len(pre):].lstrip("0123456789") + "[1]"
+                    tx.append(x)
+                if not hit:
+                    tx = None
+                mk(name, mt, tx, "element-index-unexpected", "shape=lane:" + tag, i)
+    return out
+
+
+def generate(recs, seed, tier, known_names=None, nrandom=24, shape_info=None):
+    """-> (cases, stats). A case is a dict: rec, vclass, status, what, opidx, line, text, fields.
+    shape_info ({"ids": {name: [(id, encoding class)]}, "count": id count}, from the driver) switches the shape-level
+    negatives on."""
     forms, unsupported = build_forms(recs)
     rng = common.Rng(seed).fork("c02")
     cases = []
     skipped_unknown = 0
+    built, sigs_of_name, first_rec = [], {}, {}
     for fm in forms:
         if known_names is not None and fm.asm_name not in known_names:
             skipped_unknown += 1
             continue
-        r = rng.fork(fm.rec["_idx"])
+        if fm.side_stream:
+            r = type(rng)(rng.s ^ 0x51DE57AE).fork(fm.rec["_idx"])     # (does not advance the main stream)
+        else:
+            r = rng.fork(fm.rec["_idx"])
         try:
             fm.build(r, tier)
         except Unsupported as e:
@@ -1473,12 +1876,22 @@ def generate(recs, seed, tier, known_names=None, nrandom=24):
             except Unsupported as e:
                 unsupported.setdefault(str(e)[:60], []).append(fm.rec["_idx"])
                 break
+            tokens, texts = fm.last_parts
+            sigs_of_name.setdefault(fm.asm_name, set()).add(coarse_sig(tokens))
+            first_rec.setdefault(fm.asm_name, fm.rec["_idx"])
+            if vclass == "base":
+                built.append((fm, tokens, texts))
             alt = None
             for fk, fv, _ in fields:
                 if fk == "@alttext" and text:
                     alt = text.replace(fv[0], fv[1])
             cases.append({"rec": fm.rec["_idx"], "vclass": vclass, "status": status, "what": what, "opidx": opidx, "alt_text": alt,
                           "line": line, "text": text, "fields": [f for f in fields if f[0] == "@movseq"] if notemplate else fields, "notemplate": notemplate})
-    stats = {"forms": len(forms), "unsupported": {k: len(v) for k, v in unsupported.items()},
+    nshape = 0
+    if shape_info:
+        sc = shape_cases(built, sigs_of_name, first_rec, shape_info, rng, tier)
+        nshape = len(sc)
+        cases += sc
+    stats = {"forms": len(forms), "shape_level_cases": nshape, "unsupported": {k: len(v) for k, v in unsupported.items()},
              "unsupported_records": sum(len(v) for v in unsupported.values()), "not_in_asmjit": skipped_unknown}
     return cases, stats
